@@ -8,6 +8,7 @@ package k8s
 // (keys computed again by the consumer) -> template.
 
 import (
+	"fmt"
 	"io"
 	"log/slog"
 
@@ -30,7 +31,13 @@ type VerifC09 struct {
 }
 
 // NewVerifC09 builds the controller.
-func NewVerifC09(isPlus bool) *VerifC09 {
+func NewVerifC09(isPlus bool) *VerifC09 { return newVerifC09(isPlus, false) }
+
+// NewVerifC09CertManager builds the controller with cert-manager support on (challenge Ingresses
+// are converted into routes of the VirtualServer that owns their host).
+func NewVerifC09CertManager(isPlus bool) *VerifC09 { return newVerifC09(isPlus, true) }
+
+func newVerifC09(isPlus, certManager bool) *VerifC09 {
 	v := &VerifC09{
 		svcs:   cache.NewStore(cache.MetaNamespaceKeyFunc),
 		slices: cache.NewStore(cache.MetaNamespaceKeyFunc),
@@ -57,7 +64,7 @@ func NewVerifC09(isPlus bool) *VerifC09 {
 		validation.NewVirtualServerValidator(validation.IsPlus(isPlus)),
 		validation.NewGlobalConfigurationValidator(map[int]bool{80: true, 443: true}),
 		validation.NewTransportServerValidator(true, true, isPlus),
-		true, true, false, false,
+		true, true, certManager, false,
 	)
 	v.lbc = lbc
 	return v
@@ -80,4 +87,37 @@ func (v *VerifC09) CreateIngressEx(ing *networking.Ingress, validHosts map[strin
 // CreateTransportServerEx is the real createTransportServerEx.
 func (v *VerifC09) CreateTransportServerEx(ts *conf_v1.TransportServer, listenerPort int) *configs.TransportServerEx {
 	return v.lbc.createTransportServerEx(ts, listenerPort, "", "")
+}
+
+func verifC09Changes(changes []ResourceChange, problems []ConfigurationProblem) []string {
+	var out []string
+	for _, ch := range changes {
+		out = append(out, fmt.Sprintf("change op=%d %s %s", ch.Op, ch.Resource.GetKeyWithKind(), ch.Error))
+	}
+	for _, p := range problems {
+		out = append(out, fmt.Sprintf("problem %s: %s", p.Reason, p.Message))
+	}
+	return out
+}
+
+// DeliverIngress / DeliverVirtualServer hand an object to the real Configuration (an add, an update
+// or a resync event) and return what it reports.
+func (v *VerifC09) DeliverIngress(ing *networking.Ingress) []string {
+	return verifC09Changes(v.lbc.configuration.AddOrUpdateIngress(ing))
+}
+
+func (v *VerifC09) DeliverVirtualServer(vs *conf_v1.VirtualServer) []string {
+	return verifC09Changes(v.lbc.configuration.AddOrUpdateVirtualServer(vs))
+}
+
+// VirtualServerExes is what the controller hands to the Configurator for the VirtualServers the
+// Configuration holds: createVirtualServerEx on every VirtualServerConfiguration, in GetResources order.
+func (v *VerifC09) VirtualServerExes() []*configs.VirtualServerEx {
+	var out []*configs.VirtualServerEx
+	for _, r := range v.lbc.configuration.GetResources() {
+		if vsc, ok := r.(*VirtualServerConfiguration); ok {
+			out = append(out, v.lbc.createVirtualServerEx(vsc.VirtualServer, vsc.VirtualServerRoutes))
+		}
+	}
+	return out
 }
